@@ -83,6 +83,8 @@ fn dispatch(fam: &str, p: &Params) -> String {
         "iftapply" => iftapply_case(p),
         "gsubnest" => gsubnest_case(p),
         "cfffd" => cfffd_case(p),
+        "cffpoints" => cffpoints_case(p),
+        "hbcontour" => hbcontour_case(p),
         _ => "bad-request".into(),
     }
 }
@@ -2446,6 +2448,160 @@ pub fn cfffd_jobs(_thorough: bool) -> Vec<Job> {
                 v.push(job(name, format!("stress cfffd n={n} sel={sel} fd={fd}")));
             }
         }
+    }
+    v
+}
+
+// ------------------------------------------------------------------------------------------------
+// CFF glyphs with 65535 .. 65537 points (the autohinter indexes outline points with u16)
+// ------------------------------------------------------------------------------------------------
+
+fn cffpoints_case(p: &Params) -> String {
+    let n = p.n("n");
+    let contours = p.n("contours").max(1);
+    let mut cs: Vec<u8> = vec![];
+    let per = n / contours;
+    let mut left = n;
+    for c in 0..contours {
+        let k = if c + 1 == contours { left } else { per };
+        left -= k;
+        if k == 0 {
+            continue;
+        }
+        // rmoveto = 1 point, then rlineto batches of up to 200 points (zigzag)
+        cs_num(&mut cs, 3);
+        cs_num(&mut cs, 2);
+        cs.push(21);
+        let mut todo = k - 1;
+        let mut i = 0usize;
+        while todo > 0 {
+            let b = todo.min(200);
+            for _ in 0..b {
+                cs_num(&mut cs, if i % 2 == 0 { 5 } else { -4 });
+                cs_num(&mut cs, if i % 4 < 2 { 3 } else { -3 });
+                i += 1;
+            }
+            cs.push(5);
+            todo -= b;
+        }
+    }
+    let cff2 = p.n("cff2") == 1;
+    if !cff2 {
+        cs.push(14);
+    }
+    let c = super::charstring::Case {
+        cff2,
+        gsubrs: super::charstring::index_bytes(cff2, 1, &[vec![11]]),
+        lsubrs: None,
+        blend: None,
+        cs,
+        family: "stress",
+        private_extra: blues_dict(&[6], &[-15, 0, 700, 715]),
+    };
+    let data = match super::charstring::build_cff_font(&c) {
+        Ok(d) => d,
+        Err(e) => return format!("build-failed {e}"),
+    };
+    let Ok(font) = FontRef::new(&data) else { return "font-failed".into() };
+    let mut out = format!("ok bytes={}", data.len());
+    draw_all_engines(&font, 1, &[16.0], &mut out);
+    out
+}
+
+pub fn cffpoints_jobs() -> Vec<Job> {
+    let mut v = vec![];
+    for n in [65_534usize, 65_535, 65_536, 65_537, 70_000, 131_072] {
+        for contours in [1usize, 2, 300] {
+            for cff2 in [0, 1] {
+                v.push(job("stress-glyph-shape-capacity-returns-value", format!("stress cffpoints n={n} contours={contours} cff2={cff2}")));
+            }
+        }
+    }
+    v
+}
+
+// ------------------------------------------------------------------------------------------------
+// composite whose LATE component has a non-last contour end point beyond its own point count
+// ------------------------------------------------------------------------------------------------
+
+fn hbcontour_case(p: &Params) -> String {
+    let first_pts = p.n("first").clamp(1, 65535);
+    let bogus = p.n("end").min(65535) as u16;
+    // glyph 1: `first_pts` points, no coordinate bytes (x / y "same"), flags run-length encoded
+    let mut g1: Vec<u8> = vec![];
+    be16(&mut g1, 1);
+    g1.extend_from_slice(&[0u8; 8]);
+    be16(&mut g1, (first_pts - 1) as u16);
+    be16(&mut g1, 0);
+    let mut left = first_pts;
+    while left > 0 {
+        let k = left.min(256);
+        g1.push(0x01 | 0x10 | 0x20 | if k > 1 { 0x08 } else { 0 });
+        if k > 1 {
+            g1.push((k - 1) as u8);
+        }
+        left -= k;
+    }
+    // glyph 2: two contours, end points [bogus, 5], 6 points
+    let mut g2: Vec<u8> = vec![];
+    be16(&mut g2, 2);
+    g2.extend_from_slice(&[0u8; 8]);
+    be16(&mut g2, bogus);
+    be16(&mut g2, 5);
+    be16(&mut g2, 0);
+    g2.extend_from_slice(&[0x31 | 0x08, 5]);
+    // glyph 0: composite of glyph 1 then glyph 2 (ARGS_ARE_XY_VALUES, MORE_COMPONENTS on the first)
+    let mut g0: Vec<u8> = vec![];
+    g0.extend_from_slice(&(-1i16).to_be_bytes());
+    g0.extend_from_slice(&[0u8; 8]);
+    for (flags, gid) in [(0x0002u16 | 0x0020, 1u16), (0x0002, 2)] {
+        be16(&mut g0, flags);
+        be16(&mut g0, gid);
+        g0.extend_from_slice(&[0, 0]);
+    }
+    let mut glyf: Vec<u8> = vec![];
+    let mut loca: Vec<u8> = vec![];
+    for g in [&g0, &g1, &g2] {
+        be32(&mut loca, glyf.len() as u32);
+        glyf.extend_from_slice(g);
+        while glyf.len() % 4 != 0 {
+            glyf.push(0);
+        }
+    }
+    be32(&mut loca, glyf.len() as u32);
+    let mut maxp: Vec<u8> = vec![];
+    be32(&mut maxp, 0x00010000);
+    for v in [3u16, 65535, 300, 65535, 300, 2, 0, 0, 0, 0, 16, 0, 2, 1] {
+        be16(&mut maxp, v);
+    }
+    let mut hhea = vec![0u8; 36];
+    hhea[0..4].copy_from_slice(&0x00010000u32.to_be_bytes());
+    hhea[34..36].copy_from_slice(&1u16.to_be_bytes());
+    let data = sfnt(vec![(*b"head", minimal_head(1000, true)), (*b"maxp", maxp), (*b"hhea", hhea), (*b"hmtx", vec![1, 244, 0, 0, 0, 0, 0, 0]), (*b"glyf", glyf), (*b"loca", loca)]);
+    let Ok(font) = FontRef::new(&data) else { return "font-failed".into() };
+    let outlines = font.outline_glyphs();
+    let mut out = "ok".to_string();
+    for gid in [0u32, 2, 1] {
+        let Some(g) = outlines.get(GlyphId::new(gid)) else {
+            out.push_str(" none");
+            continue;
+        };
+        for style in [skrifa::outline::pen::PathStyle::HarfBuzz, skrifa::outline::pen::PathStyle::FreeType] {
+            for size in [Size::unscaled(), Size::new(16.0)] {
+                let mut pen = NullPen(0);
+                let r = g.draw(DrawSettings::unhinted(size, LocationRef::default()).with_path_style(style), &mut pen);
+                out.push_str(if r.is_ok() { " Ok" } else { " Err" });
+            }
+        }
+    }
+    draw_all_engines(&font, 0, &[16.0], &mut out);
+    out
+}
+
+pub fn hbcontour_jobs() -> Vec<Job> {
+    let mut v = vec![];
+    for (first, end) in [(10usize, 3usize), (10, 60_000), (40_000, 3), (40_000, 25_534), (40_000, 25_535), (40_000, 25_536), (40_000, 60_000), (65_529, 5), (65_000, 65_535), (1, 65_535)] {
+        v.push(job("stress-glyf-composite-nesting-returns-value", format!("stress hbcontour first={first} end={end}")));
     }
     v
 }
